@@ -233,9 +233,20 @@ var methodNames = []string{"u_echo", "u_small", "u_void", "u_inner", "u_none", "
 // Used only to GENERATE valid traffic (the generator has to know what "valid"
 // is); never as an oracle.
 func paramSchema(method string) *arrow.Schema {
-	s, err := vgirpc.SchemaForStruct(paramTypes[method])
-	if err != nil {
-		panic(err)
-	}
-	return s
+	return paramSchemas[method]
 }
+
+// The schemas are derived once, before any hostile case runs: the generator of
+// valid traffic (and of the canary) must not depend on library state that a
+// hostile request might have damaged.
+var paramSchemas = func() map[string]*arrow.Schema {
+	m := map[string]*arrow.Schema{}
+	for name, t := range paramTypes {
+		s, err := vgirpc.SchemaForStruct(t)
+		if err != nil {
+			panic(err)
+		}
+		m[name] = s
+	}
+	return m
+}()
